@@ -106,7 +106,7 @@ def _pd_field_kwargs(pa, fs, faults):
     if fs.get("parsers"):
         kw["parsers"] = _pd_parsers(pa, fs["parsers"], faults)
     if fs.get("default") is not None:
-        kw["default"] = B._val(fs["dtype"], fs["default"])
+        kw["default"] = B._val(fs["dtype"] or fs.get("dtype_was"), fs["default"])
     if fs.get("drop_invalid_rows"):
         kw["drop_invalid_rows"] = True
     return kw
@@ -220,7 +220,8 @@ def polars_schema(spec, faults):
         if fs.get("regex"):
             kw["regex"] = True
         if fs.get("default") is not None:
-            kw["default"] = B._pl_val(fs["dtype"], fs["default"])
+            kw["default"] = B._pl_val(fs["dtype"] or fs.get("dtype_was"),
+                                      fs["default"])
         if fs.get("drop_invalid_rows"):
             kw["drop_invalid_rows"] = True
         cols[fs.get("key", fs["name"])] = pa.Column(_pl_dtype(fs["dtype"]), **kw)
@@ -349,7 +350,8 @@ def hostile(rng, backend):
         fs["checks"] = []          # built-in check args need a declared dtype
         fs["dtype"] = None
         fs["coerce"] = True
-        fs["default"] = None
+        if T(0.6):
+            fs["default"] = None
         tags.append("dtype=None+coerce")
     if frame and T(0.1):
         spec["dtype"] = rng.choice(["int64", "float64", "str"])
